@@ -62,6 +62,7 @@ structure St where
   map : Option (List (Nat × Nat)) := none
   tree : Array String := #[]
   hasTree : Bool := false
+  ptbad : Nat := 0     -- calls of a point-addressed read callback in which offset and point disagreed
   mode : Nat := 0
 
 def hasErr (t : Tree) : Bool := t.data.errorCost > 0 || t.data.isMissing || t.data.symbol == 65535
@@ -87,7 +88,9 @@ def runDrive (s : St) : String :=
   match s.canonTree with
   | none => s!"{base} eq=BADINPUT cause=other"
   | some canon =>
-    if !s.hasTree then s!"{base} eq=FAIL the drive returned no tree cause=other"
+    if s.ptbad > 0 then
+      s!"{base} eq=FAIL the read callback was handed {s.ptbad} (offset, point) pairs that disagree in its own units cause=other"
+    else if !s.hasTree then s!"{base} eq=FAIL the drive returned no tree cause=other"
     else
       match parseDump s.tree.toList with
       | none => s!"{base} eq=BADINPUT cause=other"
@@ -150,8 +153,9 @@ def step (s : St) (line : String) : IO St := do
   | ["case", id, _lang] => return { cid := id }
   | ["doc", h] => return { s with doc := (if h == "-" then [] else unhexBytes h).toArray }
   | ["canon"] => return { s with mode := 1, canon := #[] }
-  | ["drive", id, kind, param] => return { s with did := id, kind := kind, param := param, map := none, tree := #[], hasTree := false }
+  | ["drive", id, kind, param] => return { s with did := id, kind := kind, param := param, map := none, tree := #[], hasTree := false, ptbad := 0 }
   | ["map", m] => return { s with map := some (parseMap m) }
+  | ["ptbad", n] => return { s with ptbad := natOf n }
   | ["tree"] => return { s with mode := 2, hasTree := true }
   | ["notree"] => return { s with hasTree := false }
   | ["rundrive"] => IO.println (runDrive s); return s
